@@ -610,3 +610,80 @@ def r16_8(run):
 
 
 RULES = [("R16.1", r16_1), ("R16.2", r16_2), ("R16.3", r16_3), ("R16.4", r16_4), ("R16.5", r16_5), ("R16.6", r16_6), ("R16.7", r16_7), ("R16.8", r16_8)]
+
+
+def truthiness_sites(ix):
+    """[(function, test node, name, how it was bound)]: a value taken out of the caller's keyword arguments (kwargs.pop(k, None),
+    kwargs.get(k), kwargs[k]) or an optional parameter with default None is tested by its truth value (`if x:`, `x or d`, `not x`,
+    `a if x else b`) in the create functions and the helpers they call; and the number of such optional values looked at"""
+    from ..callgraph import CallGraph
+    cg = CallGraph(ix)
+    roots = [f for f in ix.module("pandapipes.create").functions.values() if f.name.startswith("create_")]
+    funcs = [f for f in cg.reachable(roots).values() if f.module.startswith("pandapipes") and ".test." not in f.module]
+    out, n = [], 0
+    for f in funcs:
+        node = f.raw_node
+        opt = {}
+        a = node.args
+        pos = a.posonlyargs + a.args
+        for p_, d in zip(reversed(pos), reversed(a.defaults)):
+            if isinstance(d, ast.Constant) and d.value is None:
+                opt[p_.arg] = "parameter with default None"
+        for p_, d in zip(a.kwonlyargs, a.kw_defaults):
+            if isinstance(d, ast.Constant) and d.value is None:
+                opt[p_.arg] = "parameter with default None"
+        kwname = a.kwarg.arg if a.kwarg else None
+        for s_ in ast.walk(node):
+            if isinstance(s_, ast.Assign) and len(s_.targets) == 1 and isinstance(s_.targets[0], ast.Name):
+                v = s_.value
+                if isinstance(v, ast.Call) and isinstance(v.func, ast.Attribute) and v.func.attr in ("pop", "get") \
+                        and isinstance(v.func.value, ast.Name) and v.func.value.id in (kwname, "kwargs") and v.args and const_str(v.args[0]):
+                    opt[s_.targets[0].id] = "%s.%s(%r, ..)" % (v.func.value.id, v.func.attr, const_str(v.args[0]))
+        # numeric-looking names only: names of flags / containers / strings are commonly and rightly tested by truth value
+        numeric = {k: v for k, v in opt.items() if re.search(r"(_mm|_m|_km|_k|_bar|_w|_kw|_mw|_kg|_per_|coefficient|_m2k|^k$|^u$|^alpha$|diameter|length|height|sections|scaling)", k)}
+        n += len(numeric)
+
+        def tests(t):
+            if isinstance(t, ast.Name):
+                yield t
+            elif isinstance(t, ast.UnaryOp) and isinstance(t.op, ast.Not):
+                yield from tests(t.operand)
+            elif isinstance(t, ast.BoolOp):
+                for v_ in t.values:
+                    yield from tests(v_)
+        for s_ in ast.walk(node):
+            cands = []
+            if isinstance(s_, (ast.If, ast.While, ast.IfExp)):
+                cands = list(tests(s_.test))
+            elif isinstance(s_, ast.BoolOp) and isinstance(s_.op, ast.Or):
+                cands = [v_ for v_ in s_.values[:-1] if isinstance(v_, ast.Name)]
+            elif isinstance(s_, ast.Assert):
+                cands = list(tests(s_.test))
+            for nm in cands:
+                if nm.id in numeric:
+                    out.append((f, s_, nm.id, numeric[nm.id]))
+    return out, n
+
+
+def r16_9(run):
+    """what the caller asked for is stored: an optional numeric argument (a roughness, a heat transfer coefficient, a diameter
+    handed in through **kwargs or a parameter with default None) is recognised by `is not None` / `in kwargs`, never by its truth
+    value -- `k = kwargs.pop('k_mm', None); if k:` drops an override of exactly 0, the standard-type value is stored instead, and
+    single and bulk creation disagree."""
+    ix = run.index
+    sites, n = truthiness_sites(ix)
+    seen = set()
+    for f, node, name, how in sites:
+        k = (f.short, name)
+        if k in seen:
+            continue
+        seen.add(k)
+        run.analysed(f)
+        run.ob("%s|%s|presence-not-truth-value" % (f.short, name), False,
+               "optional numeric input %s (%s) is tested with `is not None` / `in`, not by its truth value" % (name, how), run.where(f, node))
+    run.ob("optional-numeric-inputs-scanned", n >= 10 and not sites,
+           "optional numeric inputs of the create functions and their helpers: %d, none tested by truth value" % n, "src/pandapipes/create.py")
+    run.floor(1)
+
+
+RULES.append(("R16.9", r16_9))
